@@ -30,6 +30,20 @@ def pairs(F, prefix):
     return out
 
 
+def _generic_nt(x):
+    """a nonterminal whose type is a bare generic parameter (`w.build(track)` inside a helper generic over T that was
+    inlined): it stands for whatever type the caller passed, so it matches any nonterminal at the same position"""
+    return isinstance(x, tuple) and len(x) == 2 and x[0] == "nt" and isinstance(x[1], str) and re.fullmatch(r"&?(mut )?[A-Z][A-Za-z0-9]{0,2}", x[1]) is not None
+
+
+def _seq_match(a, b):
+    return len(a) == len(b) and all(x == y or (_generic_nt(x) and isinstance(y, tuple) and y[:1] == ("nt",)) or (_generic_nt(y) and isinstance(x, tuple) and x[:1] == ("nt",)) for x, y in zip(a, b))
+
+
+def _agree(r, w):
+    return r == w or (all(any(_seq_match(a, b) for b in w) for a in r) and all(any(_seq_match(a, b) for a in r) for b in w))
+
+
 def grammar_agreement(ctx, rep, P, prefix, floor, only=None):
     F = ctx.facts()
     G = Grammar(F, inline=INLINE)
@@ -50,7 +64,7 @@ def grammar_agreement(ctx, rep, P, prefix, floor, only=None):
             continue
         n += 1
         b0 = (d.get("from_reader") or d.get("to_writer"))[0]
-        rep.check(P + ".gram", "%s: reader and writer use the same bit-field sequences" % ty, r == w, loc_of(b0), "%d sequence(s), longest %d terminals" % (len(r), max(len(x) for x in r)),
+        rep.check(P + ".gram", "%s: reader and writer use the same bit-field sequences" % ty, _agree(r, w), loc_of(b0), "%d sequence(s), longest %d terminals" % (len(r), max(len(x) for x in r)),
                   "reader-only %s ; writer-only %s" % (sorted(r - w)[:2], sorted(w - r)[:2]))
     rep.floor(P + ".gram", "symmetric (de)serialiser pairs", n, floor)
     return G
